@@ -2,9 +2,12 @@ package x509eng
 
 import (
 	"bytes"
+	"crypto"
+	stdrsa "crypto/rsa"
 	"encoding/hex"
 	"encoding/json"
 	"fmt"
+	"math/big"
 	"time"
 
 	zasn1 "github.com/zmap/zcrypto/encoding/asn1"
@@ -12,6 +15,8 @@ import (
 	zx509 "github.com/zmap/zcrypto/x509"
 
 	"verifharness/internal/core"
+	"verifharness/internal/der"
+	"verifharness/internal/keys"
 )
 
 func init() {
@@ -20,7 +25,8 @@ func init() {
 			"noticeRef/explicitText, all nine GeneralName arms, name constraints, QC statements, Tor descriptors, SCT lists, duplicate extensions, odd Ed25519/X25519/RSA/DSA/EC keys), signed with pool keys; " +
 			"(b) real and zcrypto-created certificates with 1-4 stacked structure-aware mutations; each one accepted by ParseCertificate (strict, else permissive) gets: json.Marshal x2 (bytes compared), " +
 			"JsonifyExtensions, CollectAllNames, VerifyHostname x6, GetParsedDNSNames, CertPool.AddCert/Contains, Graph.AddCert/AddRoot, and CheckSignatureFrom + CheckSignature against every certificate " +
-			"of its batch of 16 as parent and as child; non-trivial = accepted with >= 1 extension; distinct by hash of the DER bytes",
+			"of its batch of 16 as parent and as child; plus batches of PSS-labelled children under 512/768/1024-bit RSA parents too small for the declared hash, with signature values " +
+			"crafted to pass the cheap EMSA-PSS checks; non-trivial = accepted with >= 1 extension; distinct by hash of the DER bytes",
 		MinNontrivial:         7500,
 		MinNontrivialThorough: 250000,
 		Shards:                16,
@@ -311,4 +317,90 @@ func runC02(c *core.Ctx) {
 		}
 	}
 	flush()
+	// PSS-labelled children under small RSA parents (modulus too short for the declared hash and salt), with
+	// signature values whose public-key operation yields an encoded message that passes the cheap PSS checks
+	gsp := &gen{r: c.SubRng("small-rsa-pss")}
+	for bi, nbatches := 0, c.PerShard(c.Pick(160, 4000)); bi < nbatches; bi++ {
+		var b []c02Cert
+		for _, it := range gsp.smallRSAPSSBatch() {
+			c.Count("small_rsa_pss_generated", 1)
+			cert, mode, ok := parseEither(c, it.raw)
+			if !ok {
+				c.Count("small_rsa_pss_rejected", 1)
+				continue
+			}
+			c.Eval(1)
+			x := c02Cert{cert, it.raw, mode, it.desc}
+			c02Single(c, x, fmt.Sprintf("s%d-pss%d", c.Shard, bi))
+			if len(cert.Extensions) > 0 {
+				c.Nontrivial(it.raw)
+			}
+			b = append(b, x)
+		}
+		if len(b) > 0 {
+			c02Batch(c, b, fmt.Sprintf("s%d-pssb%d", c.Shard, bi))
+			c.Count("small_rsa_pss_batches", 1)
+		}
+	}
+}
+
+type rawCert struct {
+	raw  []byte
+	desc string
+}
+
+// smallRSAPSSBatch builds three CA certificates with the 512-, 768- and 1024-bit pool keys and, under each,
+// children whose signatureAlgorithm is RSA-PSS with a hash for which the parent modulus is too short
+// (emLen < 2*hLen+2) and whose signature value s satisfies: s^e mod N ends in 0xbc with the top bits clear.
+func (g *gen) smallRSAPSSBatch() []rawCert {
+	var out []rawCert
+	_, fast := signers()
+	t0, t1 := g.genTime(), g.genTime()
+	if t1.Before(t0) {
+		t0, t1 = t1, t0
+	}
+	for _, bits := range []int{512, 768, 1024} {
+		ks := keys.Get().RSAByBits(bits, 2)
+		if len(ks) == 0 {
+			continue
+		}
+		k := ks[g.n(len(ks))]
+		key := &stdrsa.PrivateKey{PublicKey: stdrsa.PublicKey{N: k.N, E: k.E}, D: k.D}
+		spki := der.Seq(der.Seq(der.OID(oidRSA...), der.Null()), der.BitsWrap(der.Seq(der.BigInt(k.N), der.Int(int64(k.E)))))
+		caName := der.Seq(der.Set(der.Seq(der.OID(2, 5, 4, 3), der.UTF8("Small RSA CA "+itoa(bits)+" "+itoa(g.n(1000))))))
+		kbytes := (k.N.BitLen() + 7) / 8
+		caExts := []*der.Node{extension([]int{2, 5, 29, 19}, true, der.Seq(der.Bool(true)))}
+		if g.chance(50) {
+			caExts = append(caExts, extension([]int{2, 5, 29, 15}, true, der.Bits([]byte{0x06}, 1))) // keyCertSign | cRLSign
+		}
+		ca := &certParts{Version: 2, Serial: big.NewInt(int64(1 + g.n(1<<30))), SigAlg: der.Seq(der.OID(oidSHA1RSA...), der.Null()), Issuer: caName, Subject: caName.Clone(),
+			NotBefore: der.Time(t0), NotAfter: der.Time(t1), SPKI: spki, Exts: caExts,
+			signFn: func(tbs []byte) []byte {
+				return rsaPrivOp(key, emsaPKCS1v15(crypto.SHA1, hashOf(crypto.SHA1, tbs), kbytes))
+			}}
+		out = append(out, rawCert{ca.assemble(), "small-rsa-ca:" + itoa(bits)})
+		emBits := k.N.BitLen() - 1
+		emLen := (emBits + 7) / 8
+		for _, h := range []crypto.Hash{crypto.SHA256, crypto.SHA384, crypto.SHA512} {
+			if !(emLen >= h.Size()+1 && emLen < 2*h.Size()+2) {
+				continue
+			}
+			for rep := 0; rep < 2; rep++ {
+				// encoded message: top bits clear, trailer 0xbc, everything else random; signature = EM^d mod N
+				em := g.bytes(emLen)
+				em[0] &= 0xff >> uint(8*emLen-emBits)
+				em[emLen-1] = 0xbc
+				sig := rsaPrivOp(key, em)
+				sub := fast[g.n(len(fast))]
+				child := &certParts{Version: 2, Serial: big.NewInt(int64(1 + g.n(1<<30))), SigAlg: der.Seq(der.OID(oidRSAPSS...), pssParams(h)),
+					Issuer: caName.Clone(), Subject: g.name(), NotBefore: der.Time(t0), NotAfter: der.Time(t1), SPKI: sub.spki(),
+					signFn: func([]byte) []byte { return sig }}
+				if g.chance(50) {
+					child.Exts = g.extensions()
+				}
+				out = append(out, rawCert{child.assemble(), "pss-child:sha" + itoa(h.Size()*8) + "-under-rsa" + itoa(bits)})
+			}
+		}
+	}
+	return out
 }
